@@ -133,7 +133,7 @@ func (ex *Exec) step(fr *Frame, in ssa.Instruction, st *State, cur *smt.Term) *s
 		fr.vals[v] = Val{T: v.Type(), Tm: ref}
 		return cur
 	case *ssa.MakeClosure:
-		fr.vals[x] = Val{T: x.Type(), Tm: c.Fresh("closure", smt.Int)}
+		fr.vals[x] = ex.makeClosure(fr, x, st)
 		// captured variables may be written by the closure whenever it runs: treat captured heap allocs as escaping (they are heap Allocs already)
 		return cur
 	case *ssa.MakeInterface:
@@ -353,12 +353,25 @@ func (ex *Exec) binop(fr *Frame, x *ssa.BinOp, st *State, cur *smt.Term) *smt.Te
 		return cur
 	}
 	uns := isUnsigned(t)
+	ovf := func(r *smt.Term) {
+		if fr.top && fr.fc != nil && fr.fc.Overflow && !uns {
+			lo, hi, _, ok := intRange(t)
+			if ok {
+				goal := c.And(c.Le(c.BigLit(lo), r), c.Lt(r, c.BigLit(hi)))
+				ex.oblige("overflow", ex.anchor(fr, x, x.Pos()), cur, goal, x.Pos(), fr.prefix)
+				cur = c.And(cur, goal)
+			}
+		}
+	}
 	switch x.Op {
 	case token.ADD:
+		ovf(c.Add(a.Tm, b.Tm))
 		set(ex.wrap(c.Add(a.Tm, b.Tm), t, false))
 	case token.SUB:
+		ovf(c.Sub(a.Tm, b.Tm))
 		set(ex.wrap(c.Sub(a.Tm, b.Tm), t, false))
 	case token.MUL:
+		ovf(c.Mul(a.Tm, b.Tm))
 		set(ex.wrap(c.Mul(a.Tm, b.Tm), t, false))
 	case token.QUO:
 		ok := c.Not(c.Eq(b.Tm, c.IntLit(0)))
@@ -593,4 +606,48 @@ func (ex *Exec) typeAssert(fr *Frame, x *ssa.TypeAssert, st *State, cur *smt.Ter
 	ex.oblige("typeassert", ex.anchor(fr, x, x.Pos()), cur, okT, x.Pos(), fr.prefix)
 	fr.vals[x] = res
 	return c.And(cur, okT)
+}
+
+// makeClosure models a closure value as an application of a per-target uninterpreted function to its
+// bindings, remembering the target function and the bindings so that indirect calls can be resolved.
+func (ex *Exec) makeClosure(fr *Frame, x *ssa.MakeClosure, st *State) Val {
+	c := ex.W.C
+	fn, ok := x.Fn.(*ssa.Function)
+	if !ok {
+		return Val{T: x.Type(), Tm: c.Fresh("closure", smt.Int)}
+	}
+	var args []*smt.Term
+	var sorts []smt.Sort
+	for _, b := range x.Bindings {
+		bv := ex.val(fr, b)
+		var t *smt.Term
+		if bv.Tm != nil {
+			t = bv.Tm
+		} else if bv.Addr != nil {
+			t = ex.ptrTerm(bv)
+		}
+		if t == nil || t.Sort != smt.Int {
+			return Val{T: x.Type(), Tm: c.Fresh("closure", smt.Int)}
+		}
+		args = append(args, t)
+		sorts = append(sorts, smt.Int)
+	}
+	id := ex.Prog.FuncID(ex.Prog.BoundTarget(fn))
+	name := fmt.Sprintf("closure_%d", id)
+	ex.W.C.DeclareFun(name, sorts, smt.Int)
+	ex.W.C.DeclareFun("closure_fn", []smt.Sort{smt.Int}, smt.Int)
+	var tm *smt.Term
+	if len(args) == 0 {
+		tm = c.Const(name+"_0", smt.Int)
+	} else {
+		tm = c.App(name, smt.Int, args...)
+	}
+	ex.assume(c.Lt(c.IntLit(100000000), tm)) // distinct from nil and from plain function ids
+	ex.assume(c.Eq(c.App("closure_fn", smt.Int, tm), c.IntLit(int64(id))))
+	for i, a := range args {
+		bn := fmt.Sprintf("closure_bind%d", i)
+		ex.W.C.DeclareFun(bn, []smt.Sort{smt.Int}, smt.Int)
+		ex.assume(c.Eq(c.App(bn, smt.Int, tm), a))
+	}
+	return Val{T: x.Type(), Tm: tm}
 }
